@@ -62,7 +62,7 @@ import time
 from harness import monitors
 from harness.sim import Sim
 
-PROPERTIES = ["C04", "C06", "C07", "C10"]
+PROPERTIES = ["C04", "C06", "C07", "C10", "C18"]
 ORDER = 60
 
 IDS = ["a", "b", "c", "d", "e"]
@@ -80,11 +80,16 @@ C04_SIGS = ("restart:committed-entry-changed", "restart:committed-entry-not-majo
 C10_SIGS = ("restart:members-not-fold-of-journal-over-dump", "restart:member-sets-differ-at-quiescence")
 
 
+C18_SIGS = ("restart:readonly-node-does-not-converge", "restart:readonly-members-not-log-defined")
+
+
 def for_property(pid, sig):
     """Which property a signature belongs to (both components report under the property being checked).
     C10 (membership across restarts): ONLY the member-set signatures, whatever else a schedule trips."""
     if pid == "C10":
         return sig in C10_SIGS
+    if pid == "C18":
+        return sig in C18_SIGS
     if pid == "C04":
         return sig in C04_SIGS       # commit statements only: a lost vote or a lost uncommitted entry is not C04's
     is7 = sig in C07_SIGS
@@ -102,7 +107,7 @@ def dump_members(sim, dump_path):
         with open(dump_path, "rb") as f:
             with gzip.GzipFile(fileobj=f) as g:
                 data = sim.so.pickle.load(g)
-        return (set(getattr(n, "id", n) for n in data[3]), data[1][1])
+        return (set(getattr(n, "id", n) for n in data[3]) - {None}, data[1][1])
     except Exception:
         return None
 
@@ -179,10 +184,14 @@ class Runner(object):
         self.dir = tempfile.mkdtemp(prefix="rs-", dir=tmpdir)
         conf = {"useFork": False}
         conf.update(spec.get("conf") or {})
-        self.sim = Sim(repo, self.V, conf=conf, seed=spec.get("seed", 0), journal_dir=self.dir,
-                       dump=bool(spec.get("dump")))
+        self.O = ["o"] if spec.get("observer") else []          # a read-only node with its own dump file, no journal
+        self.sim = Sim(repo, self.V, observers=self.O, conf=conf, seed=spec.get("seed", 0), journal_dir=self.dir,
+                       dump=bool(spec.get("dump")),
+                       per_node_conf={o: {"fullDumpFile": os.path.join(self.dir, "%s.dump" % o)} for o in self.O})
+        self.ctor = {}                                         # node -> partner list of its last (re)start, if not the default
         self.has_dump_conf = bool(spec.get("dump"))
         self.members = bool(conf.get("dynamicMembershipChange"))
+        self.prev_log = {}                             # node -> (generation, {index: term}) after the previous event
         self.held_at_restart = []                      # (node, index, term) of membership entries in a restarted node's journal
         self.mon = monitors.StepMonitors(self.sim)
         self.events = []
@@ -351,6 +360,19 @@ class Runner(object):
             if self.live(e[1]):
                 return False
             self._restart(e[1])
+        elif k == "start":
+            # ["start", i, [partner ids], observer?]: (re)start a dead node with THIS partner list (its configuration)
+            if self.live(e[1]):
+                return False
+            self._restart(e[1], others=list(e[2]), observer=bool(e[3]))
+        elif k == "connect_known":
+            # the transport of node e[1] only dials nodes it knows: connect e[1]-e[2] if e[2] is in its node set
+            if not self.live(e[1]) or not self.live(e[2]):
+                return False
+            if e[2] not in [n.id for n in sim.objs[e[1]].otherNodes]:
+                self.cov["connect_known:unknown-node"] += 1
+                return False
+            sim.connect(e[1], e[2])
         elif k == "probe_vote":
             # a competing candidate of the voter's CURRENT term with a log that is at least as good
             # "*": from a peer the voter has NOT voted for in this term according to the wire (a probe
@@ -450,7 +472,9 @@ class Runner(object):
         # what the node's dump covers: its applied position — a node killed before its first tick has not loaded
         # its dump yet (applied = 1) and still has what it had when it was killed the time before
         covered = max(o.raftLastApplied, self.before[i].get("covered", 0) if (i in self.fresh and i in self.before) else 0)
-        self.before[i] = {"covered": covered, "log": log, "need": [x for x in log if x[0] <= hi], "term": o.raftCurrentTerm,
+        journaled = i in self.V
+        self.before[i] = {"covered": covered, "log": log, "need": [x for x in log if x[0] <= hi] if journaled else [],
+                          "term": o.raftCurrentTerm if journaled else 0,
                           "commit": o.raftCommitIndex, "applied": o.raftLastApplied,
                           "voted": getattr(o, "_SyncObj__votedForNodeId", None), "leader": o._isLeader()}
         self.restarted_in_term[o.raftCurrentTerm].add(i)
@@ -470,11 +494,17 @@ class Runner(object):
         elif 2 * len(sim.objs) < len(self.V):
             self.cov["kill:majority-dead"] += 1
 
-    def _restart(self, i):
+    def _restart(self, i, others=None, observer=False):
         sim = self.sim
         b = self.before.get(i)
         try:
-            sim.restart(i)
+            if others is None:
+                self.ctor.pop(i, None)
+                sim.restart(i)
+            else:
+                self.ctor[i] = list(others)
+                sim.trace.append(["restart", i, list(others)])
+                sim._start(i, observer=observer, others=list(others))
         except Exception as x:        # the constructor raised: the node cannot come back
             sim.cur = None
             self.flag("restart:recovery-raises:%s" % type(x).__name__,
@@ -543,6 +573,32 @@ class Runner(object):
             ds[dest] = g
             self.cov["votes"] += 1
 
+    def _acked_stay(self, i, g, lg, applied):
+        """C06 while the node RUNS (no kill needed): an entry it acknowledged on the wire stays in its log, or under
+        its applied snapshot, unless a leader's append replaced an entry at or below it by one of another term
+        (conflict truncation).  Seen otherwise: a snapshot installed over a log that already holds its last entry."""
+        lkey = (len(lg), lg[0][1], lg[-1][1], lg[-1][2])
+        prev = self.prev_log.get(i)
+        if prev is not None and prev[0] == g and prev[1] == lkey:
+            return
+        cur = {e[1]: e[2] for e in lg[:]}
+        if prev is not None and prev[0] == g:
+            old = prev[2]
+            first = lg[0][1]
+            hi = self.ack_hi[i]
+            gone = [idx for idx in old if idx <= hi and idx not in cur and not (idx < first and idx <= applied)]
+            if gone:
+                lowest = min(gone)
+                conflict = [j for j in old if j <= lowest and j in cur and cur[j] != old[j]] or \
+                           [j for j in cur if j <= lowest and j in old and cur[j] != old[j]]
+                replaced = any(j in cur and cur[j] != old[j] for j in old if j <= max(gone))
+                if not conflict and not replaced:
+                    self.flag("restart:acknowledged-entries-lost",
+                              "node %s (running, not killed) had acknowledged up to index %d; after this step the entries %s are "
+                              "neither in its log (%d..%d) nor under its applied snapshot (applied=%d), and no entry at or below them "
+                              "was replaced by one of another term" % (i, hi, sorted(gone)[:8], first, lg[-1][1], applied))
+        self.prev_log[i] = (g, lkey, cur)
+
     def _scan_execs(self, i, g):
         """executions of node i not looked at yet belong to its generation g: positions strictly increase"""
         ex = self.sim.execs.get(i, [])
@@ -593,6 +649,7 @@ class Runner(object):
             self.last[i] = (g, c, a)
             self._scan_execs(i, g)
             lg = sim.P(i, "raftLog")
+            self._acked_stay(i, g, lg, a)
             key = (g, c, len(lg), lg[0][1], lg[-1][1], lg[-1][2])
             if self.ckey.get(i) != key:
                 self.ckey[i] = key
@@ -641,7 +698,8 @@ class Runner(object):
                     self.cov["restart:members-checked-over-dump"] += 1
                     if any(x[0] > ctx["dump"][1] for x in ments):
                         self.cov["restart:members-checked-over-dump-with-later-entries"] += 1
-                bad = members_mismatch(sim, sim.objs[e[1]], e[1], self.V, ctx.get("dump"))
+                conf_list = self.V if e[1] not in self.ctor else (self.ctor[e[1]] + ([e[1]] if e[1] in self.V else []))
+                bad = members_mismatch(sim, sim.objs[e[1]], e[1], conf_list, ctx.get("dump"))
                 if bad:
                     self.flag("restart:members-not-fold-of-journal-over-dump", bad)
 
@@ -687,7 +745,7 @@ class Runner(object):
     def _voters_by_log(self):
         """the member set DEFINED BY THE LOG: the configured voters with the membership commands of the committed
         entries carried out in order (never a node's own `otherNodes`)"""
-        M = list(self.V)
+        M = list(self.spec.get("initial") or self.V)
         if not self.members:
             return M
         MEM = bytes([self.sim.so._COMMAND_TYPE.MEMBERSHIP])
@@ -720,13 +778,34 @@ class Runner(object):
             elif v in self.before:
                 b = self.before[v]
                 views[v] = (set((x[0], x[1]) for x in b["log"]), b["log"][0][0] if b["log"] else 1, b["covered"])
-        M = self._voters_by_log()
+        # the member set in force is the one of the LATEST membership entry in a log (appended, not yet committed ones
+        # included — that is how single-server changes work, and the code carries them out at append): a position is
+        # backed if it has a majority under the committed entries' member set or under that of some running node's log
+        configs = [self._voters_by_log()]
+        if self.members:
+            MEM = bytes([sim.so._COMMAND_TYPE.MEMBERSHIP])
+            for v in self.V:
+                if v not in sim.objs:
+                    continue
+                M2 = list(configs[0])
+                changed = False
+                for (cmd, idx, term) in sim.P(v, "raftLog")[:]:
+                    if idx in self.committed or not isinstance(cmd, bytes) or cmd[:1] != MEM:
+                        continue
+                    req = sim.so.pickle.loads(cmd[1:])
+                    if req[0] == "add" and req[1] not in M2:
+                        M2.append(req[1]); changed = True
+                    elif req[0] == "rem" and req[1] in M2:
+                        M2.remove(req[1]); changed = True
+                if changed and M2 not in configs:
+                    configs.append(M2)
+        M = configs[0]
         todo = sorted(self.committed) if only is None else sorted(only)
         self.cov["restart:committed-positions-majority-checked" if only is None else "commit:new-positions-majority-checked"] += len(todo)
         for idx in todo:
             term = self.committed[idx][0]
-            holders = [v for v, (ents, first, la) in views.items() if v in M and ((idx, term) in ents or (idx < first and idx <= la))]
-            if 2 * len(holders) <= len(M):
+            holders = [v for v, (ents, first, la) in views.items() if (idx, term) in ents or (idx < first and idx <= la)]
+            if not any(2 * len([h for h in holders if h in C]) > len(C) for C in configs):
                 self.flag("restart:committed-entry-not-majority-backed",
                           "position %d (term %d) %s; only %s of the voters %s (member set defined by the log) store it"
                           % (idx, term, ("was reported committed and node %s has been restarted since" % i) if only is None
@@ -1171,6 +1250,85 @@ def base_snapshot_partial(r):
     return info
 
 
+def base_snapshot_stale_reset(r):
+    """FIFO channels only.  The connection to a follower died unnoticed by the leader (its nextIndex ran ahead); after
+    the reconnect two heartbeats are in flight: two `reset` replies.  After the first the leader sends its snapshot (k1)
+    and the following entries, which the follower journals and acknowledges WITHOUT having ticked (nothing applied
+    beyond k1); the leader compacts again (k2 inside the follower's unapplied log); the second, older `reset` makes it
+    send the newer snapshot: the follower already holds its last entry and must keep what it acknowledged after it."""
+    V = r.V
+    sim = r.sim
+    r.ev("connect_all")
+    L = r.elect()
+    if L is None:
+        return {}
+    F = [i for i in V if i != L]
+    lag, other = F[-1], F[0]
+    rest = [i for i in V if i != lag]
+    r.ev("submit", L, "t0")
+    r.rounds(3)
+    for j in rest:
+        r.ev("cut", lag, j)                        # nobody notices: the leader goes on sending into the void
+    for k in range(1, 4):
+        r.ev("submit", L, "t%d" % k)
+    r.rounds(5, among=rest)
+    r.ev("compact", L)
+    r.rounds(2, among=rest)                        # dump k1, journal head dropped
+    for k in range(4, 7):
+        r.ev("submit", L, "t%d" % k)
+    r.rounds(6, among=rest)                        # applied beyond k1 on the leader
+    if sim.leader(rest) != L or sim.objs[L].raftLastApplied != sim.last_index(L):
+        return {}
+    k1 = sim.log_of(L)[0][0] + 1
+    r.ev("connect", lag, L)
+    r.ev("tick", L, 0.1875)
+    r.ev("tick", L, 0.1875)                         # two heartbeats in flight to the lagging follower
+    if len(sim.chan[(L, lag)]) != 2 or any("prevLogIdx" not in m for m in sim.chan[(L, lag)]):
+        return {}
+    r.ev("deliver", L, lag)                        # -> reset #1
+    r.ev("deliver", lag, L)
+    r.ev("tick", L, 0.1875)                         # snapshot k1 in chunks + the following entries, behind heartbeat 2
+    r.deliver_all(among={L, other})
+    r.rounds(1, among=[L, other])
+    for k in range(7, 9):
+        r.ev("submit", L, "t%d" % k)               # two more entries: sent, not committed (the other follower stays silent)
+    r.ev("tick", L, 0.1875)
+    r.ev("tick", L, 0.1875)
+    while sim.chan[(L, lag)]:
+        r.ev("deliver", L, lag)                    # heartbeat 2 -> reset #2; snapshot installed; entries journaled + acknowledged
+    held = sim.last_index(lag)
+    q = sim.chan[(lag, L)]
+    if sim.objs[lag].raftLastApplied >= held or not q or not q[0].get("reset") or held != sim.last_index(L):
+        return {}
+    r.ev("compact", L)
+    r.ev("tick", L, 0.0625)
+    r.ev("tick", L, 0.0625)                        # dump k2 > k1, head dropped
+    k2 = sim.log_of(L)[0][0] + 1
+    if not (k1 < k2 < held) or sim.objs[lag].raftLastApplied >= k2:
+        return {}
+    r.ev("deliver", lag, L)                        # the OLD reset #2: nextIndex far back, below the new journal head
+    r.ev("tick", L, 0.1875)                         # -> the newer snapshot (and what follows it)
+    info = {"leader": L, "followers": F, "lag": lag, "held": held, "k1": k1, "k2": k2}
+    n = 0
+    while sim.chan[(L, lag)] and n < 400:
+        m = sim.chan[(L, lag)][0]
+        r.ev("deliver", L, lag)
+        n += 1
+        if m.get("serialized") is not None and m["serialized"][2]:
+            info["window_from"] = len(r.events)        # right after the last chunk of the newer snapshot
+    if "window_from" not in info:
+        return {}
+    info["window_to"] = info["window_from"] + 1
+    r.ev("tick", lag, 0.0625)
+    for j in rest:
+        if j != L:
+            r.ev("connect", lag, j)
+    r.rounds(8)
+    r.ev("submit", L, "t9")
+    r.rounds(3)
+    return info
+
+
 def base_minority(r):
     """a follower installs the leader's snapshot, then the OTHER follower is cut off: the next commands are committed
     on the strength of the first follower's acknowledgement alone; then the leader is cut off for good and the two
@@ -1261,6 +1419,42 @@ def base_members(r):
     return {"leader": N, "followers": [i for i in V if i != N], "old": L}
 
 
+def base_members_vote(r):
+    """dynamicMembershipChange: node X is removed and added again (both entries stay in the journals), then X stands for
+    election and a voter grants it its vote; the voter is killed and restarted while that election is open"""
+    V = r.V
+    r.ev("connect_all")
+    L = r.elect()
+    if L is None:
+        return {}
+    F = [i for i in V if i != L]
+    voter, X = F[0], F[1]
+    r.ev("submit", L, "e0")
+    r.rounds(3)
+    r.ev("member", L, "rem", X)
+    r.rounds(4)
+    r.ev("member", L, "add", X)
+    r.rounds(6)
+    r.ev("submit", L, "e1")
+    r.rounds(5)
+    sim = r.sim
+    if sim.leader() != L or sim.last_index(X) != sim.last_index(L) or X not in [n.id for n in sim.objs[voter].otherNodes]:
+        return {}
+    r.ev("tick", X, 2.0)                       # candidate of a new term
+    n0 = len(sim.sent)
+    r.ev("deliver", X, voter)
+    if not any(s_ == voter and m["type"] == "response_vote" for (s_, d_, m) in sim.sent[n0:]):
+        return {}
+    info = {"leader": L, "followers": F, "lag": voter, "candidate": X, "window_from": len(r.events)}
+    info["window_to"] = len(r.events) + 2
+    r.ev("tick", voter, 0.0625)
+    r.ev("deliver", voter, X)
+    r.rounds(8)
+    r.ev("submit", X, "e2")
+    r.rounds(4)
+    return info
+
+
 def base_members_minority(r):
     """a node is added AFTER every voter's dump position; a follower is restarted from journal + dump, the other
     follower is cut off, and the restarted one stands for election: with the member set of its log (4) the votes of
@@ -1303,7 +1497,8 @@ def base_members_minority(r):
 
 BASES = {"vote": base_vote, "replication": base_replication, "snapshot": base_snapshot, "conflict": base_conflict,
          "members": base_members, "minority": base_minority, "snapshot_late": base_snapshot_late,
-         "snapshot_partial": base_snapshot_partial, "members_minority": base_members_minority}
+         "snapshot_partial": base_snapshot_partial, "members_minority": base_members_minority,
+         "snapshot_stale_reset": base_snapshot_stale_reset, "members_vote": base_members_vote}
 # (conflict: one batch per tick — with several pipelined batches and a conflicting LAST entry on the follower
 #  the real code alternates between two reset replies forever; a progress matter (C05), see notes/restart.md)
 BASE_CONF = {"vote": {}, "replication": {"appendEntriesBatchSizeBytes": 24},
@@ -1313,7 +1508,87 @@ BASE_CONF = {"vote": {}, "replication": {"appendEntriesBatchSizeBytes": 24},
              "minority": {"logCompactionBatchSize": 16, "appendEntriesBatchSizeBytes": 24},
              "snapshot_late": {"logCompactionBatchSize": 16, "appendEntriesBatchSizeBytes": 24},
              "members_minority": {"dynamicMembershipChange": True, "appendEntriesBatchSizeBytes": 64},
+             "snapshot_stale_reset": {"logCompactionBatchSize": 64, "appendEntriesBatchSizeBytes": 2 ** 16},
+             "members_vote": {"dynamicMembershipChange": True, "appendEntriesBatchSizeBytes": 2 ** 16},
              "snapshot_partial": {"logCompactionBatchSize": 16, "appendEntriesBatchSizeBytes": 2 ** 16}}
+
+
+def run_readonly(repo, spec, tmpdir, variant=0):
+    """C18 with dynamicMembershipChange: the cluster grows from {a} to {a, b, c} while a read-only node o (own dump file,
+    configured with [a] only) follows it; o compacts, is killed; a goes away for good; b and c go on; o is restarted
+    with its ORIGINAL list [a].  Its node set must be the one its dump + log define, and it must catch up with the
+    voters through the members it knows (its transport dials known nodes only: `connect_known`)."""
+    r = Runner(repo, spec, tmpdir)
+    try:
+        sim = r.sim
+        for v in r.V + r.O:
+            r.ev("kill", v)
+        r.ev("start", "a", [], False)                 # a cluster of one
+        r.ev("start", "o", ["a"], True)
+        r.ev("connect", "o", "a")
+        if r.elect(among=["a"]) != "a":
+            return r
+        r.ev("submit", "a", "r0")
+        r.rounds(3, among=["a", "o"])
+        live = ["a", "o"]
+        for n, (new, partners) in enumerate((("b", ["a"]), ("c", ["a", "b"]))):
+            r.ev("start", new, partners, False)
+            for j in partners:
+                r.ev("connect", new, j)
+            r.ev("member", "a", "add", new)
+            live.append(new)
+            r.rounds(6, among=live)
+            r.ev("connect_known", "o", new)
+            r.ev("submit", "a", "r%d" % (n + 1))
+            r.rounds(4, among=live)
+            if variant == 1 and n == 0:
+                r.ev("compact", "o")                 # dump with {a, b} only; c is learnt from the log afterwards
+                r.rounds(2, among=live)
+        if variant != 1:
+            r.ev("compact", "o")
+            r.rounds(2, among=live)
+        r.ev("submit", "a", "r3")
+        r.rounds(4, among=live)
+        r.cov["readonly:members-before-kill:%s" % ",".join(sorted(n.id for n in sim.objs["o"].otherNodes))] += 1
+        r.ev("kill", "o")
+        r.ev("kill", "a")                            # gone for good
+        two = ["b", "c"]
+        N = r.elect(among=two)
+        if N is None:
+            return r
+        r.ev("submit", N, "r4")
+        r.rounds(4, among=two)
+        for rep in range(2 if variant == 2 else 1):
+            r.ev("start", "o", ["a"], True)          # the original configuration
+            r.ev("tick", "o", 0.0625)                # loads its own dump
+            if rep == 0 and variant == 2:
+                r.ev("kill", "o")
+        r.cov["readonly:restarted-from-own-dump"] += 1
+        for j in two:
+            r.ev("connect_known", "o", j)
+        three = two + ["o"]
+        r.rounds(12, among=three)
+        r.ev("submit", N, "r5")
+        r.rounds(8, among=three)
+        o, L = sim.objs["o"], sim.objs[N]
+        want = set(r._voters_by_log())
+        if variant == 1:
+            want = want               # c was added after o's dump: o cannot know it before it has caught up — it does via b
+        have = set(n.id for n in o.otherNodes)
+        if o.raftLastApplied != L.raftLastApplied or list(o.log) != list(L.log):
+            r.flag("restart:readonly-node-does-not-converge",
+                   "read-only node o restarted from its own dump with its original node list ['a'] (a is gone): after 20 rounds "
+                   "applied=%d state %r, the leader %s has applied=%d state %r; o's node set is %s"
+                   % (o.raftLastApplied, list(o.log)[-4:], N, L.raftLastApplied, list(L.log)[-4:], sorted(have)))
+        else:
+            r.cov["readonly:converged"] += 1
+        if have != want:
+            r.flag("restart:readonly-members-not-log-defined",
+                   "read-only node o after the restart from its own dump: node set %s, the membership commands of the log define %s"
+                   % (sorted(have), sorted(want)))
+    finally:
+        r.close()
+    return r
 
 
 def record_base(repo, name, spec, tmpdir):
@@ -1336,6 +1611,9 @@ def back_up(V, victims, probe=True):
                 ev.append(["connect", v, j])
     if probe:
         for v in victims:
+            ev.append(["probe_vote", v, "*"])
+        for v in victims:                 # ... and again once the node has done its first tick (dump load, journal replay)
+            ev.append(["tick", v, 0.0])
             ev.append(["probe_vote", v, "*"])
     return ev
 
@@ -1444,6 +1722,8 @@ def summarize(r, label, spec, events=None):
 def _work(args):
     repo, item, base_seed, deadline, tmp = args
     res = []
+    import logging
+    logging.getLogger("pysyncobj").setLevel(logging.CRITICAL + 1)      # (worker process) the code logs what we judge
     if time.time() > deadline and item[0] != "corpus":
         return [{"label": "deadline", "cov": {"deadline-cut": 1}, "violations": [], "n_events": 0, "hash": None}]
     os.makedirs(tmp, exist_ok=True)
@@ -1475,6 +1755,12 @@ def _work(args):
                     break
                 r = run_events(repo, spec, events, tmp)
                 res.append(summarize(r, label, spec))
+        elif item[0] == "readonly":
+            _, variant, dump = item
+            spec = {"n": 3, "dump": dump, "observer": True, "initial": ["a"], "seed": base_seed * 13 + variant,
+                    "conf": {"dynamicMembershipChange": True, "appendEntriesBatchSizeBytes": 64}}
+            r = run_readonly(repo, spec, tmp, variant)
+            res.append(summarize(r, "readonly/%d/%s" % (variant, "dump" if dump else "journal"), spec))
         elif item[0] == "corpus":
             ent = json.load(open(item[1]))
             r = run_events(repo, ent["spec"], ent["events"], tmp)
@@ -1486,6 +1772,8 @@ def _work(args):
 
 def plan(ctx):
     items = []
+    if ctx.pid == "C18":
+        return [("readonly", v, d) for v in (0, 1, 2) for d in (True, False)]
     if ctx.pid == "C10":
         # membership across restarts only: the `members` family and random schedules with membership changes
         quick = ctx.tier == "quick"
@@ -1499,6 +1787,7 @@ def plan(ctx):
                 items.append(("directed", "members", 4, True, 1, ctx.seed, kinds, (j, K)))
         for k in range(ctx.scale(8, 1500)):
             items.append(("random-members", k, ctx.scale(200, 420)))
+        items += [("readonly", v, True) for v in (0, 1, 2)]
         return items
     if ctx.pid == "C04":
         # commit statements across restarts (C04's own components never restart a node)
@@ -1543,6 +1832,9 @@ def plan(ctx):
                 items.append(("directed", name, n, dump, t_stride, off, kinds, (j, t_shards)))
     if ctx.pid == "C07":
         # elections are what C07 is about: every vote variant; the other families thinned in the quick tier
+        fam("members_vote", 3, True, 1, 1, VOTE, 1)
+        fam("members_vote", 3, False, 1, 1, VOTE, 1)
+        fam("members_vote", 5, True, 0, 1, VOTE, 1)
         fam("snapshot_late", 3, True, 2, 1, VOTE, 4)
         fam("snapshot_late", 3, False, 0, 1, VOTE, 4)
         fam("vote", 3, False, 1, 1, VOTE, 2)
@@ -1560,6 +1852,8 @@ def plan(ctx):
     else:
         fam("snapshot_partial", 3, True, 1, 1, VOTE, 1)
         fam("snapshot_partial", 3, False, 0, 1, VOTE, 1)
+        fam("snapshot_stale_reset", 3, True, 1, 1, ("between",), 1)
+        fam("snapshot_stale_reset", 3, False, 0, 1, ("between",), 1)
         fam("snapshot_late", 3, True, 6, 1, VOTE, 4)
         fam("replication", 3, True, 4, 1, ALL, 12)
         fam("replication", 2, False, 3, 1, ALL, 4)
@@ -1644,7 +1938,9 @@ def assemble(ctx, results, t0, planned, skipped=0):
            "disagreements": [], "violations": viols, "wall_s": round(time.time() - t0, 2),
            "notes": "planned items %d, schedules run %d, skipped by deadline %d" % (planned, cases, skipped + cov.get("deadline-cut", 0))}
     need = ["kill", "restart", "kill:leader", "kill:all-dead", "kill-at-send", "acked-entries-checked", "finale:converged"]
-    if ctx.pid == "C04":
+    if ctx.pid == "C18":
+        need = ["readonly:restarted-from-own-dump", "readonly:converged", "restart:dump-loaded", "member:add"]
+    elif ctx.pid == "C04":
         need = ["kill", "restart", "kill:leader", "kill:majority-dead", "restart:dump-loaded", "finale:converged",
                 "restart:committed-positions-majority-checked"]
     elif ctx.pid == "C10":
